@@ -39,10 +39,26 @@ fn construct(k: StrKind, s: &str) -> Result<Option<Vec<u8>>, String> {
         }};
     }
     match k {
-        StrKind::Printable => via!(PrintableString, |x: &PrintableString| x.as_str().as_bytes().to_vec(), Some(PrintableString::from_str(s))),
-        StrKind::Ia5 => via!(Ia5String, |x: &Ia5String| x.as_str().as_bytes().to_vec(), Some(Ia5String::from_str(s))),
+        // the value's own accessors (as_str, AsRef<str>, Display, == str / String) all say the text that went in
+        StrKind::Printable => via!(PrintableString, |x: &PrintableString| {
+            let owned = s.to_string();
+            if x.as_str() != s || <PrintableString as AsRef<str>>::as_ref(x) != s || x.to_string() != s || *x != *s || *x != owned || x != &s || x != &&owned {
+                return b"accessors disagree with the input".to_vec();
+            }
+            x.as_str().as_bytes().to_vec()
+        }, Some(PrintableString::from_str(s))),
+        StrKind::Ia5 => via!(Ia5String, |x: &Ia5String| {
+            let owned = s.to_string();
+            if x.as_str() != s || <Ia5String as AsRef<str>>::as_ref(x) != s || x.to_string() != s || *x != *s || *x != owned || x != &s || x != &&owned {
+                return b"accessors disagree with the input".to_vec();
+            }
+            x.as_str().as_bytes().to_vec()
+        }, Some(Ia5String::from_str(s))),
         StrKind::Teletex => via!(TeletexString, |x: &TeletexString| {
-            assert_eq!(x.as_str().as_bytes(), x.as_bytes());
+            let owned = s.to_string();
+            if x.as_str() != s || <TeletexString as AsRef<str>>::as_ref(x) != s || x.to_string() != s || *x != *s || *x != owned || x != &s || x != &&owned || x.as_str().as_bytes() != x.as_bytes() {
+                return b"accessors disagree with the input".to_vec();
+            }
             x.as_bytes().to_vec()
         }, Some(TeletexString::from_str(s))),
         StrKind::Bmp => via!(BmpString, |x: &BmpString| x.as_bytes().to_vec(), Some(BmpString::from_str(s))),
